@@ -21,10 +21,12 @@ pub async fn read_saved_target_env_state(target: &TargetMetadata) -> Option<Targ
         let file_path = file_path.clone();
 
         task::spawn_blocking(move || {
-            let file = std::fs::File::open(&file_path).with_context(|| {
+            // Decode from memory: a corrupted length prefix is then rejected against the actual file size
+            // instead of driving an allocation of that size.
+            let bytes = std::fs::read(&file_path).with_context(|| {
                 format!("Failed to open checksums file {}", &file_path.display())
             })?;
-            bincode::deserialize_from(file)
+            bincode::deserialize(&bytes)
                 .with_context(|| format!("Failed to deserialize checksums for {}", target_id))
         })
         .await
